@@ -49,3 +49,21 @@ Proof.
   rewrite L1, L2, (set_dependence hic mh xs ys m1 m2 Hw Hset H1 H2). reflexivity.
 Qed.
 End Hist.
+
+(* C06 end to end on the Redis model: two Redis-backed sketches that represent the in-memory
+   sketches of two streams; after Merge the receiver represents the in-memory sketch of the
+   concatenated stream (the union), and the argument still represents its own stream *)
+Theorem redis_merge_is_union (hic : N -> bytes -> N * N) m al s0 xs ys ma mb u s a b :
+  hll_new m al = Ok s0 -> upd_all hic s0 xs = Ok ma -> upd_all hic s0 ys = Ok mb ->
+  upd_all hic s0 (xs ++ ys) = Ok u ->
+  hrefines s a ma -> hrefines s b mb -> rh_key a <> rh_key b ->
+  exists s', rhll_merge s a b = (Ok tt, s') /\ hrefines s' a u /\ hrefines s' b mb.
+Proof.
+  intros Hn Ha Hb Hu HRa HRb Hk.
+  destruct (new_wf m al s0 Hn) as (Hw0 & _).
+  destruct (upd_all_regs hic xs s0 ma Hw0 Ha) as (_ & _ & Ma & _).
+  destruct (upd_all_regs hic ys s0 mb Hw0 Hb) as (_ & _ & Mb & _).
+  destruct (hll_merge_refines s a b ma mb HRa HRb Hk (eq_trans Ma (eq_sym Mb))) as (s' & mm & Hm & Hr & HRa' & HRb').
+  exists s'. split; [exact Hr|]. split; [|exact HRb'].
+  rewrite <- (merge_is_union hic m al s0 xs ys ma mb u mm Hn Ha Hb Hu Hm). exact HRa'.
+Qed.
